@@ -255,7 +255,9 @@ pub fn run(thorough: bool, seed: u64, driver: &str, rep: &mut Report) {
                 for s in all_shapes(n) {
                     for mode in [LenMode::All, LenMode::None, LenMode::Mixed] {
                         let mut t = s.clone();
-                        label(&mut rng, &mut t, &LabelOpts { len_mode: mode, internal_names_pct: 30, ..Default::default() });
+                        let rl0 = rng.chance(1, 3);
+                        label(&mut rng, &mut t, &LabelOpts { len_mode: mode, internal_names_pct: 30, root_len: rl0, ..Default::default() });
+                        if mode == LenMode::None && rng.chance(1, 2) { t.len = Some(*rng.pick(&[0.0, 1.0, 2.5])); }
                         one_tree(&t, &mut rng, rep, &mut batch, true);
                     }
                     rep.count("exhaustive_shapes");
@@ -267,7 +269,9 @@ pub fn run(thorough: bool, seed: u64, driver: &str, rep: &mut Report) {
                 let mode = *rng.pick(&[LenMode::All, LenMode::All, LenMode::All, LenMode::None, LenMode::Mixed]);
                 let kind = if job.exact { LenKind::Dyadic } else { LenKind::Decimal };
                 let fancy = rng.chance(1, 2);
-                label(&mut rng, &mut t, &LabelOpts { len_mode: mode, len_kind: kind, fancy_names: fancy, internal_names_pct: 30, ..Default::default() });
+                let rl = rng.chance(1, 3);
+                label(&mut rng, &mut t, &LabelOpts { len_mode: mode, len_kind: kind, fancy_names: fancy, internal_names_pct: 30, root_len: rl, ..Default::default() });
+                if mode == LenMode::None && rng.chance(1, 3) { t.len = Some(*rng.pick(&[0.0, 1.0, 2.5])); }
                 if i % 7 == 0 {
                     crate::c05::collide_internal_names(&mut rng, &mut t, 40);
                 }
